@@ -83,7 +83,14 @@ fn run_inner(case: &str, args: &Value) -> Option<Outcome> {
     }
 }
 
+pub fn list(case: &str, seed: u64, open: &[String]) -> Option<Vec<Value>> {
+    Some(generator(case, seed, open)?.filter(|i| !in_known_region(case, i, open)).collect())
+}
 pub fn search(case: &str, seed: u64, open: &[String]) -> Option<SearchResult> {
+    let gen = generator(case, seed, open)?;
+    search_in(case, gen, open)
+}
+fn generator(case: &str, seed: u64, open: &[String]) -> Option<Box<dyn Iterator<Item = Value>>> {
     let gen: Box<dyn Iterator<Item = Value>> = match case {
         "c20_merge" => Box::new(c20::merge_inputs(seed)),
         "c08_num_search_maximum" => Box::new(c08::num_inputs("maximum", seed)),
@@ -126,6 +133,9 @@ pub fn search(case: &str, seed: u64, open: &[String]) -> Option<SearchResult> {
         "c17_schema" => Box::new(c17_sdl::schema_inputs(seed, open)),
         _ => return None,
     };
+    Some(gen)
+}
+fn search_in(case: &str, gen: Box<dyn Iterator<Item = Value>>, open: &[String]) -> Option<SearchResult> {
     let mut tried = 0u64;
     let mut samples: Vec<(Value, String)> = Vec::new();
     for input in gen {
